@@ -393,11 +393,15 @@ func (r *ResolverGenerator) jsonResolverMethods() (m []*codegen.Method) {
 			),
 			jen.Id("aliasMap").Op(":=").Id(toAliasMapFnName).Call(jen.Id("rawContext")),
 			jen.Commentf("Begin: Private lambda to handle a single string %q value. Makes code generation easier.", typePropertyName),
+			jen.Commentf("Set when the lambda does not know the type name, which is not the same as a callback returning %s.", errorUnhandled),
+			jen.Id("unknownName").Op(":=").False(),
 			jen.Id("handleFn").Op(":=").Func().Parens(
 				jen.Id("typeString").String(),
 			).Error().Block(
+				jen.Id("unknownName").Op("=").False(),
 				aliasFetching,
 				impl.Else().Block(
+					jen.Id("unknownName").Op("=").True(),
 					jen.Return(
 						jen.Id(errorUnhandled),
 					),
@@ -442,7 +446,7 @@ func (r *ResolverGenerator) jsonResolverMethods() (m []*codegen.Method) {
 						).Block(
 							jen.Return(jen.Nil()),
 						).Else().If(
-							jen.Err().Op("==").Id(errorUnhandled),
+							jen.Id("unknownName"),
 						).Block(
 							jen.Commentf("Keep trying other types: only if all fail do we return this error."),
 							jen.Continue(),
